@@ -315,6 +315,10 @@ def run(check, an: Analysis):
     _scope.check_typestate(check, an)
     from . import _scope as _sc
     _sc.check_scope_core(check, an, skip=('foreign', 'task-close'))
+    from . import c03 as _c03
+    _c03.check_handlers(check, an, 'K')
+    from . import _scope as _kernel
+    _kernel.check_kernel_core(check, an)
     check.stats.update(an.stats())
 
 
